@@ -154,6 +154,18 @@ def gen_case(rng, i):
         for t_ in trio:
             lst.insert(j, t_)
             j = rng.randint(j + 1, len(lst))
+    if i % 7 in (1, 6) and not wild:
+        # a NEARLY opposite pair of small numbers: one coefficient of the order of 10^-4 differs in its second or third digit (by less than
+        # 10^-5 in absolute terms): not an opposite pair, nothing may be folded
+        v = rng.choice(inv)
+        w = rng.choice(outv)
+        small = 0.0002
+        delta = rng.choice([0.000008, -0.000008])          # 0.000208 = 13/62500, 0.000192 = 3/15625: small integer images
+        # equal bounds on both (what would fold into |..| <= c if the terms were opposite)
+        c1_ = c2_ = ceil4(max(abs(lhs_at({v: small, w: 1}, pt)), abs(lhs_at({v: small + delta, w: 1}, pt))) + rng.choice([0.5, 1]))
+        j = rng.randint(0, len(g))
+        g.insert(j, ({v: small, w: 1}, c1_))
+        g.insert(rng.randint(j + 1, len(g)), ({v: round(-(small + delta), 7), w: -1}, c2_))
     if i % 7 == 3:
         # an opposite pair that CONTRADICTS itself (equal negative bounds, or pushed apart): the contract has no behaviour, which the
         # printed form must say too (kept unsimplified; a reader that re-simplifies may refuse it)
